@@ -411,6 +411,19 @@ def check_reductions(ctx, rep):
             rep.ok("T-REDUCE", "reduction:Parens", pb.where(), "delegates to the inner Or")
         else:
             rep.bad("T-REDUCE", "T-REDUCE:reduction:Parens", pb.where(), "Parens::eval does not simply delegate to its Or: %s" % calls)
+    # a record matches exactly when the filter evaluates to true on it: Dict::filter is eval() and nothing else
+    df = next((b for b in prog.bodies.values() if re.search(r"filtered::dict::<impl haystack::filter::filtered::Filtered(<[^>]*>)? for haystack::val::dict::Dict>::filter$", b.short)), None)
+    if df is None:
+        rep.gap("Dict::filter", "-", "Filtered impl for Dict not found")
+    else:
+        n += 1
+        ret = G.describe_place(df, {"l": 0, "p": []})
+        switches = [bi for bi in range(df.n) if df.term(bi)["k"] == "switch"]
+        nots = [1 for blk in df.blocks for s2 in blk["stmts"] if s2["k"] == "assign" and s2["rv"]["k"] == "unop" and s2["rv"]["op"] == "Not"]
+        if ret.kind == "call" and ret.v.endswith("filter::eval::Eval>::eval") and not switches and not nots:
+            rep.ok("T-REDUCE", "dict:filter-is-eval", df.where(), "Dict::filter returns filter.eval(context) on its only path")
+        else:
+            rep.bad("T-REDUCE", "T-REDUCE:dict:filter-is-eval", df.where(switches[0]) if switches else df.where(), "Dict::filter is not plainly filter.eval(context) (returns %s, %d branches): some records get an answer the filter did not give" % (repr(ret)[:80], len(switches)))
     # grid filtering: first hit of a forward iteration; all hits in iteration order
     if body_of(prog, "haystack::filter::filtered::grid::<impl haystack::filter::filtered::Filtered for haystack::val::grid::Grid>::filter") is None:
         rep.gap("Grid::filter", "-", "Filtered impl for Grid not found")
@@ -792,3 +805,49 @@ def check_path_resolution(ctx, rep):
     else:
         rep.bad("T-RESOLVE", "T-RESOLVE:resolve_for:non-dict-yields-null", b.where(), "the non-dict arm of the traversal does not yield Null")
     return n + 1
+
+
+
+def check_parens_display(ctx, rep):
+    """a parenthesised group prints as "(" inner ")" on every path: the brackets are what makes the printed text parse back to
+    a Parens node, whatever the group contains"""
+    from vlib.dataflow import must_pass
+
+    prog = ctx.prog
+    b = body_of(prog, "<haystack::filter::nodes::Parens as std::fmt::Display>::fmt")
+    if b is None:
+        rep.gap("Parens::fmt", "-", "not found")
+        return 0
+    opens, closes, inner, errs = [], [], [], []
+    for bi, t in b.calls():
+        nm = strip_generics(mir.callee_name(t) or "")
+        lit = None
+        if nm.endswith("Formatter::write_str") and len(t["args"]) > 1:
+            v = G.describe(b, t["args"][1])
+            lit = v.v if v.kind == "conststr" else None
+        elif nm.endswith("write_fmt"):
+            a = fmtargs.arguments_of(b, t["args"][1])
+            if a and a[0] is not None:
+                lit = "".join(p[1] for p in a[0] if p[0] == "lit")
+                if any(p[0] != "lit" for p in a[0]):
+                    inner.append(bi)
+        elif nm.endswith("Or as std::fmt::Display>::fmt") or nm.endswith("Or as std::fmt::Debug>::fmt"):
+            inner.append(bi)
+        elif nm.endswith("FromResidual>::from_residual"):
+            errs.append(bi)
+        if lit is not None:
+            if "(" in lit:
+                opens.append(bi)
+            if ")" in lit:
+                closes.append(bi)
+    if not inner:
+        rep.bad("T-SKELETON", "T-SKELETON:parens-display", b.where(), "Parens::fmt never prints its inner expression")
+        return 1
+    rets = [x for x in range(b.n) if b.term(x)["k"] == "return"]
+    ok1 = all(i in opens or 0 in opens or must_pass(b, [0], i, opens)[0] for i in inner)
+    ok2 = all(i in closes or all(must_pass(b, [i], r, closes + errs)[0] for r in rets) for i in inner)
+    if ok1 and ok2:
+        rep.ok("T-SKELETON", "parens-display", b.where(), "every path prints '(' before and ')' after the inner expression")
+    else:
+        rep.bad("T-SKELETON", "T-SKELETON:parens-display", b.where(), "Parens::fmt can print its inner expression without %s: the printed text parses to a tree without the group" % ("the opening bracket" if not ok1 else "the closing bracket"))
+    return 1
